@@ -378,6 +378,9 @@ package zygo
 //@ sweepfile C01 scopes.go
 //@ sweepfile C01 address.go
 //@ sweepfile C01 pratt.go
+// selectors: the VM's assign instruction calls these through the Selector interface, outside any recover
+//@ sweepfile C01 arrayutils.go
+//@ sweep C01 (*SexpHashSelector).AssignToSelection, (*SexpHashSelector).RHS, (*SexpSymbol).AssignToSelection, (*SexpSymbol).RHS
 
 // Fields set once by their constructors: existing objects keep them across any call.
 //@ stable C01 Parser | lexer, env | (*Zlisp).NewParser
@@ -1421,3 +1424,16 @@ package zygo
 //@ ghost sincePrepare := ite(typeis(arg1, PrepareCallInstr), 0, ite(sincePrepare >= 0, sincePrepare + 1, 0 - 1)) @after call AddInstruction[*]
 //@ C03,C09 ensures tail-call-re-enters-like-a-call: r0 == nil ==> sincePrepare == 0 - 1 || sincePrepare == 2
 //@ C03,C09 loop 0 invariant sincePrepare == 0 - 1
+
+// C01: assignment through an array selector (reached from the VM's assign instruction, outside
+// any recover). RHS is the validation AssignToSelection relies on: when it succeeds on a
+// non-slice selector the selector is one int inside the container's bounds.
+//@ spec sliceShape(x *SexpArraySelector) bool = ?
+//@ func (*SexpArraySelector).sliceBounds
+//@ assume pure
+//@ assume ensures same-answer-for-the-same-selector: r3 == nil ==> r2 == sliceShape(x)
+//@ func (*SexpArraySelector).RHS
+//@ C01 pure
+//@ C01 ensures index-checked: r1 == nil && !sliceShape(x) ==> len(x.Select.Val) == 1 && typeis(x.Select.Val[0], *SexpInt) && 0 <= x.Select.Val[0].(*SexpInt).Val && x.Select.Val[0].(*SexpInt).Val < len(x.Container.Val)
+//@ func (*SexpArraySelector).AssignToSelection
+//@ C01 nopanic
